@@ -103,7 +103,12 @@ TypeOK   == /\ \A x \in st.repC : x.c >= 1
 \* ---- scenario generation
 One(X) == IF X = {} THEN {} ELSE {RandomElement(X)}
 \* signer sets are drawn with a bias towards the set that makes the call succeed
-OneS(X, h) == IF RandomElement(1..10) <= 7 THEN {h} ELSE One(X)
+\* (70 %); where the call needs a node's own witness, a foreign node signs in half of the other cases
+\* (signer A, argument / header key B)
+OneS(X, h) == LET k == RandomElement(1..20)
+              IN  IF k <= 14 THEN {h}
+                  ELSE IF k <= 17 /\ h \cap {"ALPHA", "CMT"} = {} THEN One({{n} : n \in Nodes \ h})
+                  ELSE One(X)
 \* every scenario starts with an environment in which estimations and audit results can be accepted
 Prelude == <<
   [act |-> "cn.put", S |-> {"ALPHA"}, e |-> 0, x |-> 0, a |-> "c1", b |-> Nil, v |-> Nil, ks |-> <<>>],
